@@ -93,6 +93,30 @@ fn run_config(mode: &str, n: usize, pool: Option<usize>, reps: usize, timeout_ms
                 }
             }
         }
+        "foreign" => {
+            // dispatch is called from a worker of an unrelated one-thread pool: the dispatcher
+            // must still use its own pool
+            let mut b = builder_with(n, &m);
+            if let Some(tp) = &tp {
+                b.add_pool(tp.clone());
+            }
+            let mut d = b.build();
+            width = d.max_threads();
+            let foreign = rayon::ThreadPoolBuilder::new().num_threads(1).build().unwrap();
+            let world = &world;
+            let m2 = m.clone();
+            // `Dispatcher` is not `Send`; its sendable form is
+            let mut sd = d.try_into_sendable().ok().expect("no thread-local systems");
+            foreign.install(move || {
+                for _ in 0..reps {
+                    m2.reset();
+                    sd.dispatch(world);
+                    if m2.timed_out.load(SeqCst) {
+                        break;
+                    }
+                }
+            });
+        }
         "batch" => {
             let inner = builder_with(n, &m);
             let mut b = DispatcherBuilder::new();
@@ -146,7 +170,7 @@ pub fn run(args: &Args, rep: &mut Report) {
         }
     } else {
         for n in 2..=16usize {
-            for mode in ["top", "batch", "async"] {
+            for mode in ["top", "batch", "async", "foreign"] {
                 configs.push((mode.to_string(), n, Some(n)));
                 configs.push((mode.to_string(), n, Some(n + 3)));
             }
@@ -169,7 +193,7 @@ pub fn run(args: &Args, rep: &mut Report) {
             rep.sample(Json::obj(vec![("config", Json::s(line.clone())), ("systems_that_met", Json::n(met as u64)), ("dispatches", Json::n(reps as u64))]));
         }
         let model = drv.ask(&format!("pool {} {}", workers, n));
-        if width != n && (mode == "top" || mode == "default") {
+        if width != n && (mode == "top" || mode == "default" || mode == "foreign") {
             rep.violate("C11", "impl", "", format!("{}: {} mutually independent systems were laid out with stage width {}", line, n, width), vec![line.clone()]);
         }
         if !ok {
